@@ -193,6 +193,7 @@ where
                 rx,
                 connector,
                 Some(connection),
+                false,
                 &inner.config,
             );
         }
@@ -203,7 +204,15 @@ where
         if inner.connecting.contains(&token) {
             trace!("connection in progress elsewhere, will wait");
             connector = None;
-            Checkout::new(token, self.as_ref(), rx, connector, None, &inner.config)
+            Checkout::new(
+                token,
+                self.as_ref(),
+                rx,
+                connector,
+                None,
+                false,
+                &inner.config,
+            )
         } else {
             if multiplex {
                 // Only block new connection attempts if we can multiplex on this one.
@@ -211,7 +220,15 @@ where
                 inner.connecting.insert(token);
             }
             trace!("connecting to host");
-            Checkout::new(token, self.as_ref(), rx, connector, None, &inner.config)
+            Checkout::new(
+                token,
+                self.as_ref(),
+                rx,
+                connector,
+                None,
+                multiplex,
+                &inner.config,
+            )
         }
     }
 }
@@ -334,6 +351,12 @@ where
         let existed = self.connecting.remove(&token);
         if existed {
             trace!("pending connection cancelled");
+
+            // Checkouts which did not start their own connection attempt because this one was in
+            // progress would otherwise wait forever: dropping their senders wakes them up, and
+            // they resolve as unavailable. Checkouts which are connecting on their own merely
+            // lose the chance to be pre-empted.
+            self.waiting.remove(&token);
         }
     }
 }
